@@ -97,9 +97,14 @@ template <class T, sz N> std::vector<rvec<N>> vecs_over(std::vector<long> const 
   return out;
 }
 
+// case name (with the shape) and signature base (function + scalar instantiation only)
 template <class L, class R> std::string tag(char const *group, std::string const &shape_text)
 {
   return std::string("narrow_") + group + "<" + sname<L>::v + "," + sname<R>::v + "," + shape_text + ">";
+}
+template <class L, class R> std::string sigbase(char const *group)
+{
+  return std::string("narrow_") + group + "<" + sname<L>::v + "," + sname<R>::v + ">";
 }
 
 // a result is "interesting" when some component lies outside the range of both operand types
@@ -138,6 +143,7 @@ template <int K, class L, class R, sz N> void componentwise(std::vector<long> co
 {
   static char const *const kn[] = {"vector", "dim", "vector_dim"};
   static std::string const fn = tag<L, R>(kn[K], std::to_string(N));
+  static std::string const sg = sigbase<L, R>(kn[K]);
   using LS = std::conditional_t<K == 1, fd::static_<L, N>, fv::static_<L, N>>;
   using RS = std::conditional_t<K == 0, fv::static_<R, N>, fd::static_<R, N>>;
   using add_t = decltype(std::declval<L>() + std::declval<R>());
@@ -175,32 +181,32 @@ template <int K, class L, class R, sz N> void componentwise(std::vector<long> co
       static_assert(std::is_same_v<typename decltype(su * sw)::value_type, mul_t>);
       if (ok_add)
       {
-        C14_EQ(rdv(su + sw), sum, fn + ":add", "u+v");
-        C14_EQ(rdv(vu + vw), sum, fn + ":add:view", "u+v (view storages)");
+        C14_EQ(rdv(su + sw), sum, sg + ":add", "u+v");
+        C14_EQ(rdv(vu + vw), sum, sg + ":add:view", "u+v (view storages)");
       }
       if (ok_sub)
       {
-        C14_EQ(rdv(su - sw), diff, fn + ":sub", "u-v");
-        C14_EQ(rdv(vu - vw), diff, fn + ":sub:view", "u-v (view storages)");
+        C14_EQ(rdv(su - sw), diff, sg + ":sub", "u-v");
+        C14_EQ(rdv(vu - vw), diff, sg + ":sub:view", "u-v (view storages)");
       }
       if (ok_mul)
       {
-        C14_EQ(rdv(su * sw), prod, fn + ":mul", "u*v");
-        C14_EQ(rdv(vu * vw), prod, fn + ":mul:view", "u*v (view storages)");
+        C14_EQ(rdv(su * sw), prod, sg + ":mul", "u*v");
+        C14_EQ(rdv(vu * vw), prod, sg + ":mul:view", "u*v (view storages)");
       }
       {
         auto const q = su / sw;
         static_assert(std::is_same_v<typename std::remove_cvref_t<decltype(q.get_unsafe())>::value_type, div_t>);
-        check_quot(q, u, w, fn + ":div");
-        check_quot(vu / vw, u, w, fn + ":div:view");
+        check_quot(q, u, w, sg + ":div");
+        check_quot(vu / vw, u, w, sg + ":div:view");
       }
       if constexpr (K != 2)
       {
         // unary minus and scalar operators; the scalars are the first components
         using neg_t = decltype(-std::declval<L>());
         static_assert(std::is_same_v<typename decltype(-su)::value_type, neg_t>);
-        C14_EQ(rdv(-su), rvscal(-1, u), fn + ":negate", "-u");
-        C14_EQ(rdv(-vu), rvscal(-1, u), fn + ":negate:view", "-u (view storage)");
+        C14_EQ(rdv(-su), rvscal(-1, u), sg + ":negate", "-u");
+        C14_EQ(rdv(-vu), rvscal(-1, u), sg + ":negate:view", "-u (view storage)");
         R const kr = static_cast<R>(w[0]);
         L const kl = static_cast<L>(u[0]);
         rvec<N> const ukr = rvscal(w[0], u), klw = rvscal(u[0], w);
@@ -211,14 +217,14 @@ template <int K, class L, class R, sz N> void componentwise(std::vector<long> co
         {
           static_assert(std::is_same_v<typename decltype(su * kr)::value_type, mul_t>);
           static_assert(std::is_same_v<typename decltype(kl * sw)::value_type, mul_t>);
-          C14_EQ(rdv(su * kr), ukr, fn + ":scalar:right", "u*k");
-          C14_EQ(rdv(vu * kr), ukr, fn + ":scalar:right:view", "u*k (view storage)");
-          C14_EQ(rdv(kl * sw), klw, fn + ":scalar:left", "k*v");
-          C14_EQ(rdv(kl * vw), klw, fn + ":scalar:left:view", "k*v (view storage)");
+          C14_EQ(rdv(su * kr), ukr, sg + ":scalar:right", "u*k");
+          C14_EQ(rdv(vu * kr), ukr, sg + ":scalar:right:view", "u*k (view storage)");
+          C14_EQ(rdv(kl * sw), klw, sg + ":scalar:left", "k*v");
+          C14_EQ(rdv(kl * vw), klw, sg + ":scalar:left:view", "k*v (view storage)");
         }
         rvec<N> den;
         den.fill(w[0]);
-        check_quot(su / kr, u, den, fn + ":scalar:div");
+        check_quot(su / kr, u, den, sg + ":scalar:div");
       }
     }
   }
@@ -228,6 +234,7 @@ template <int K, class L, class R, sz N> void componentwise(std::vector<long> co
 template <class L, class R, sz Rr, sz C> void matrix_sums(std::vector<long> const &lv, std::vector<long> const &rv)
 {
   static std::string const fn = tag<L, R>("matrix_add_sub", shape(Rr, C));
+  static std::string const sg = sigbase<L, R>("matrix_add_sub");
   using LM = fm::static_<L, Rr, C>;
   using RM = fm::static_<R, Rr, C>;
   using add_t = decltype(std::declval<L>() + std::declval<R>());
@@ -265,13 +272,13 @@ template <class L, class R, sz Rr, sz C> void matrix_sums(std::vector<long> cons
       static_assert(std::is_same_v<typename decltype(sa - sb)::value_type, sub_t>);
       if (ok_add)
       {
-        C14_EQ(rd(sa + sb), sum, fn + ":add", "A+B");
-        C14_EQ(rd(va + vb), sum, fn + ":add:view", "A+B (view storages)");
+        C14_EQ(rd(sa + sb), sum, sg + ":add", "A+B");
+        C14_EQ(rd(va + vb), sum, sg + ":add:view", "A+B (view storages)");
       }
       if (ok_sub)
       {
-        C14_EQ(rd(sa - sb), diff, fn + ":sub", "A-B");
-        C14_EQ(rd(va - vb), diff, fn + ":sub:view", "A-B (view storages)");
+        C14_EQ(rd(sa - sb), diff, sg + ":sub", "A-B");
+        C14_EQ(rd(va - vb), diff, sg + ":sub:view", "A-B (view storages)");
       }
       R const kr = static_cast<R>(b.d[0]);
       L const kl = static_cast<L>(a.d[0]);
@@ -279,13 +286,13 @@ template <class L, class R, sz Rr, sz C> void matrix_sums(std::vector<long> cons
       static_assert(std::is_same_v<typename decltype(kl * sb)::value_type, mul_t>);
       if (ok_ak)
       {
-        C14_EQ(rd(sa * kr), ak, fn + ":scalar:right", "A*k");
-        C14_EQ(rd(va * kr), ak, fn + ":scalar:right:view", "A*k (view storage)");
+        C14_EQ(rd(sa * kr), ak, sg + ":scalar:right", "A*k");
+        C14_EQ(rd(va * kr), ak, sg + ":scalar:right:view", "A*k (view storage)");
       }
       if (ok_kb)
       {
-        C14_EQ(rd(kl * sb), kb, fn + ":scalar:left", "k*B");
-        C14_EQ(rd(kl * vb), kb, fn + ":scalar:left:view", "k*B (view storage)");
+        C14_EQ(rd(kl * sb), kb, sg + ":scalar:left", "k*B");
+        C14_EQ(rd(kl * vb), kb, sg + ":scalar:left:view", "k*B (view storage)");
       }
     }
   }
@@ -316,6 +323,7 @@ template <class RT, sz Rr, sz K, sz C> bool exact_product(rmat<Rr, K> const &a, 
 template <class L, class R, sz Rr, sz K, sz C> void matrix_products(std::vector<long> const &lv, std::vector<long> const &rv)
 {
   static std::string const fn = tag<L, R>("matrix_product", shape(Rr, K) + "." + shape(K, C));
+  static std::string const sg = sigbase<L, R>("matrix_product");
   using LM = fm::static_<L, Rr, K>;
   using RM = fm::static_<R, K, C>;
   using mul_t = decltype(std::declval<L>() * std::declval<R>());
@@ -341,9 +349,9 @@ template <class L, class R, sz Rr, sz K, sz C> void matrix_products(std::vector<
       tbuf<R, K * C> const bb(b.d);
       auto const vb = bb.template mat<K, C>();
       static_assert(std::is_same_v<typename decltype(sa * sb)::value_type, mul_t>);
-      C14_EQ(rd(sa * sb), want, fn + ":wrong", "A*B");
-      C14_EQ(rd(va * vb), want, fn + ":wrong:view", "A*B (view storages)");
-      C14_EQ(rd(sa * vb), want, fn + ":wrong:static_view", "A*B (static, view)");
+      C14_EQ(rd(sa * sb), want, sg + ":wrong", "A*B");
+      C14_EQ(rd(va * vb), want, sg + ":wrong:view", "A*B (view storages)");
+      C14_EQ(rd(sa * vb), want, sg + ":wrong:view", "A*B (static, view)");
     }
   }
 }
@@ -352,6 +360,7 @@ template <class L, class R, sz Rr, sz K, sz C> void matrix_products(std::vector<
 template <class L, class R, sz Rr, sz C> void matrix_vector(std::vector<long> const &lv, std::vector<long> const &rv)
 {
   static std::string const fn = tag<L, R>("matrix_vector", shape(Rr, C));
+  static std::string const sg = sigbase<L, R>("matrix_vector");
   using LM = fm::static_<L, Rr, C>;
   using RV = fv::static_<R, C>;
   using mul_t = decltype(std::declval<L>() * std::declval<R>());
@@ -384,11 +393,11 @@ template <class L, class R, sz Rr, sz C> void matrix_vector(std::vector<long> co
       vrt::nontrivial(leaves_operand_range<L, R>(want));
       vrt::maybe_sample();
       static_assert(std::is_same_v<decltype(sa * sx[xi]), fv::static_<mul_t, Rr>>);
-      C14_EQ(rdv(sa * sx[xi]), want, fn + ":wrong", "A*x");
-      C14_EQ(rdv(va * bx[xi].vec()), want, fn + ":wrong:view", "A*x (view storages)");
-      C14_EQ(rdv(sa * bx[xi].vec()), want, fn + ":wrong:static_view", "A*x (static, view)");
+      C14_EQ(rdv(sa * sx[xi]), want, sg + ":wrong", "A*x");
+      C14_EQ(rdv(va * bx[xi].vec()), want, sg + ":wrong:view", "A*x (view storages)");
+      C14_EQ(rdv(sa * bx[xi].vec()), want, sg + ":wrong:view", "A*x (static, view)");
       // the same product as matrix * (Cx1 matrix)
-      C14_EQ(rd(sa * mk_anym<fm::static_<R, C, 1>>(col)).d, want, fn + ":law:column_matrix", "A*x vs A*(Cx1 matrix)");
+      C14_EQ(rd(sa * mk_anym<fm::static_<R, C, 1>>(col)).d, want, sg + ":law:column_matrix", "A*x vs A*(Cx1 matrix)");
     }
   }
 }
